@@ -136,12 +136,20 @@ class Writer:
         Writer.log.append(("data", time, point_data, cell_data))
 
 
-def case_job_writer(ctx):
+def case_job_writer(ctx, with_x0=False):
     import meshio.xdmf
 
     field = tiny_field(ctx)
     n = 8
-    item = RampItem(ctx, field, n, "a")
+    if with_x0:
+        # the item lives on its own (differently placed) mesh object; the top-level field x0 is what is solved and written
+        with ctx.concrete():
+            m2 = fem.Rectangle(a=(3, 3), b=(5, 4), n=2)
+            f_item = fem.FieldContainer([fem.Field(fem.RegionQuad(m2), dim=2)])
+        f_item[0].values = ctx.const_array(f_item[0].values)
+        item = RampItem(ctx, f_item, n, "a")
+    else:
+        item = RampItem(ctx, field, n, "a")
     ramp = ctx.array("ramp", (3,), -1, 1)
     with ctx.concrete():
         mask = np.zeros(4, dtype=bool)
@@ -166,6 +174,7 @@ def case_job_writer(ctx):
             cell_data_default=False,
             point_data={"twice": lambda field, substep: 2 * field[0].values},
             cell_data={"first_value": lambda field, substep: [np.asarray(field[0].values)[:1]]},
+            **({"x0": field} if with_x0 else {}),
         )
     except ValueError:
         failed = True
@@ -176,6 +185,9 @@ def case_job_writer(ctx):
     ctx.check_concrete("points_and_cells_written_once_before_frames", [e[0] for e in ev][:2] == ["open", "points_cells"] and sum(e[0] == "points_cells" for e in ev) == 1)
     ctx.check_concrete("one_frame_per_converged_substep_in_order", [f[1] for f in frames] == list(range(len(seen_cb))) and (failed or len(frames) == 3))
     ctx.check_concrete("writer_closed", ev[-1] == ("close",))
+    pc = [e for e in ev if e[0] == "points_cells"][0]
+    want = field.region.mesh.points
+    ctx.check_concrete("written_mesh_is_the_solved_top_level_mesh", np.allclose(np.asarray(pc[1], dtype=float)[:, :2], np.asarray(want, dtype=float)))
     for k, (fr, sub) in enumerate(zip(frames, seen_cb)):
         u = np.asarray(sub.x[0].values)
         disp = np.asarray(fr[2]["Displacement"])
@@ -207,5 +219,6 @@ def cases(tier):
     out = [("roundtrip", case_roundtrip, {"cell_type": c}) for c in CELLS]
     out.append(("container_merge", case_container_merge, {}))
     out.append(("job_writer", case_job_writer, {"max_paths": 16}))
+    out.append(("job_writer", case_job_writer, {"with_x0": True, "max_paths": 16}))
     out.append(("default_cell_data", case_default_cell_data, {}))
     return out
